@@ -99,7 +99,7 @@ br_ecdsa_i31_vrfy_raw(const br_ec_impl *impl,
 	if (!br_i31_decode_mod(s, (const unsigned char *)sig + rlen, rlen, n)) {
 		return 0;
 	}
-	if (br_i31_iszero(s)) {
+	if (br_i31_iszero(s) | br_i31_iszero(r)) {
 		return 0;
 	}
 
@@ -144,8 +144,17 @@ br_ecdsa_i31_vrfy_raw(const br_ec_impl *impl,
 	 */
 	ulen = cd->generator_len;
 	memcpy(eU, pk->q, ulen);
-	res = impl->muladd(eU, NULL, ulen,
-		tx, nlen, ty, nlen, cd->curve);
+	if (br_i31_iszero(t2)) {
+		/*
+		 * The hash value is zero modulo the curve order (public
+		 * information): y is zero, which muladd() does not
+		 * support; the result is x*Q.
+		 */
+		res = impl->mul(eU, ulen, tx, nlen, cd->curve);
+	} else {
+		res = impl->muladd(eU, NULL, ulen,
+			tx, nlen, ty, nlen, cd->curve);
+	}
 
 	/*
 	 * Get the X coordinate, reduce modulo the curve order, and
